@@ -17,6 +17,19 @@ const (
 	tShortRec = "slice(param:d.recordBuf,," + tReadN + ")"
 )
 
+// the 8-byte record size at the head of the stream: binary.Read into a
+// uint64, or io.ReadFull into an 8-byte array decoded with BigEndian.Uint64
+const (
+	tRecSize     = "{local:recordSize|call:(binary.bigEndian).Uint64(read8(param:r))}"
+	tReadSizeErr = "{call:binary.Read(param:r,global:binary.BigEndian,local:recordSize)|call:io.ReadFull(param:r,read8(param:r))#1}"
+)
+
+func readSizeOK() gate.Gate {
+	return either("N.read-size", "the 8-byte record size was read without error",
+		gate.CallOK("", "binary.Read", "param:r", "global:binary.BigEndian", "local:recordSize"),
+		gate.CallOK("", "io.ReadFull", "param:r", "read8(param:r)"))
+}
+
 func storeTo(field string, valPat string) func(ssa.Instruction) bool {
 	return func(in ssa.Instruction) bool {
 		st, ok := in.(*ssa.Store)
@@ -97,13 +110,12 @@ func micetypestate(e *Env, why string) {
 	}
 	// every store of nextProof in the three functions is one of the accepted forms
 	for _, fn := range []*ssa.Function{rn, rd} {
-		for _, b := range fn.Blocks {
-			for _, in := range b.Instrs {
-				if st, ok := in.(*ssa.Store); ok && prov.Of(st.Addr) == "param:d.nextProof" && prov.Of(st.Val) != "const:nil" {
-					e.R.Fail("TYPESTATE", load.FuncName(fn)+":nextProof<-"+short(prov.Of(st.Val)), e.P.InstrPos(in), "nextProof is replaced by an unauthenticated value")
-				}
+		fn := fn
+		forEachInstrWithHelpers(e, fn, func(in ssa.Instruction) {
+			if st, ok := in.(*ssa.Store); ok && prov.Of(st.Addr) == "param:d.nextProof" && prov.Of(st.Val) != "const:nil" {
+				e.R.Fail("TYPESTATE", load.FuncName(fn)+":nextProof<-"+short(prov.Of(st.Val)), e.P.InstrPos(in), "nextProof is replaced by an unauthenticated value")
 			}
-		}
+		})
 	}
 	// 4. flags: short read => last, full read => not last; hashing 0 / 1 as the encoder
 	e.gatesBefore("TYPESTATE", rn, noCfg, "validate(last)", func(in ssa.Instruction) bool {
@@ -121,20 +133,18 @@ func micetypestate(e *Env, why string) {
 	}, errIs("R.eof", "call:io.ReadFull(param:d.r,param:d.recordBuf)#1", "global:io.EOF"),
 		gate.Cmp("R.draft02", "param:d.encoding", token.EQL, `const:"mi-sha256-draft2"`))
 	// every validateRecord call in readNextRecord is one of the three forms, flag constant as required
-	for _, b := range rn.Blocks {
-		for _, in := range b.Instrs {
-			if c, ok := in.(*ssa.Call); ok && prov.CalleeName(&c.Call) == "mice.validateRecord" {
-				a0, a1, a2 := prov.Of(c.Call.Args[0]), prov.Of(c.Call.Args[1]), prov.Of(c.Call.Args[2])
-				key := "readNextRecord:validate(" + short(a0) + ")"
-				okForm := a1 == "param:d.nextProof" && ((a0 == tShortRec && a2 == "const:true") || (a0 == tBuf && a2 == "const:false") || (a0 == "const:nil" && a2 == "const:true"))
-				if okForm {
-					e.R.OK("TYPESTATE", key, e.P.InstrPos(in), "record, chained proof and last-record flag agree (flag "+a2+")")
-				} else {
-					e.R.Fail("TYPESTATE", key, e.P.InstrPos(in), "validateRecord is called with record/proof/flag ("+short(a0)+", "+a1+", "+a2+") that do not agree with the read outcome")
-				}
+	forEachInstrWithHelpers(e, rn, func(in ssa.Instruction) {
+		if c, ok := in.(*ssa.Call); ok && prov.CalleeName(&c.Call) == "mice.validateRecord" {
+			a0, a1, a2 := prov.Of(c.Call.Args[0]), prov.Of(c.Call.Args[1]), prov.Of(c.Call.Args[2])
+			key := "readNextRecord:validate(" + short(a0) + ")"
+			okForm := a1 == "param:d.nextProof" && ((a0 == tShortRec && a2 == "const:true") || (a0 == tBuf && a2 == "const:false") || (a0 == "const:nil" && a2 == "const:true"))
+			if okForm {
+				e.R.OK("TYPESTATE", key, e.P.InstrPos(in), "record, chained proof and last-record flag agree (flag "+a2+")")
+			} else {
+				e.R.Fail("TYPESTATE", key, e.P.InstrPos(in), "validateRecord is called with record/proof/flag ("+short(a0)+", "+a1+", "+a2+") that do not agree with the read outcome")
 			}
 		}
-	}
+	})
 	flagBytes(e, vr)
 	// success exits of readNextRecord: nil only after a validation; io.EOF only after the empty last record
 	e.requireGates("TYPESTATE", rn, gate.Outcome{Kind: gate.ErrNil, Idx: 0}, noCfg,
@@ -170,8 +180,8 @@ func micetypestate(e *Env, why string) {
 	e.gatesBefore("TYPESTATE", nd, noCfg, "alloc-record-buffer", func(in ssa.Instruction) bool {
 		_, ok := in.(*ssa.MakeSlice)
 		return ok
-	}, gate.Cmp("N.nonzero", "local:recordSize", token.NEQ, "const:0"), gate.Cmp("N.max", "local:recordSize", token.LEQ, "param:maxRecordSize"),
-		gate.CallOK("N.read-size", "binary.Read", "param:r", "global:binary.BigEndian", "local:recordSize"))
+	}, gate.Cmp("N.nonzero", tRecSize, token.NEQ, "const:0"), gate.Cmp("N.max", tRecSize, token.LEQ, "param:maxRecordSize"),
+		readSizeOK())
 	// the empty-stream shortcut: a decoder without reader/proof is returned only for non-draft02 after validateRecord(nil, proof, true)
 	for _, b := range nd.Blocks {
 		r, ok := b.Instrs[len(b.Instrs)-1].(*ssa.Return)
@@ -200,7 +210,7 @@ func micetypestate(e *Env, why string) {
 		ctx.OnlyReturn = r
 		for _, g := range []gate.Gate{
 			gate.CallBool("N.empty-valid", "mice.validateRecord", true, "const:nil", tProof, "const:true"),
-			errIs("N.empty-eof", "call:binary.Read(param:r,global:binary.BigEndian,local:recordSize)", "global:io.EOF"),
+			errIs("N.empty-eof", tReadSizeErr, "global:io.EOF"),
 			gate.Cmp("N.empty-not-draft02", "param:enc", token.NEQ, `const:"mi-sha256-draft2"`),
 		} {
 			ok2, w := ctx.Established(nd, gate.Outcome{Kind: gate.AnyReturn}, g)
@@ -259,6 +269,50 @@ func structFieldNames(fa *ssa.FieldAddr) []string {
 	return out
 }
 
+// readsBytesOnly: the byte slice v is never written through: it is only
+// hashed/compared (validateRecord), measured, copied from, re-sliced, or kept
+// (the slice header stored into a field).
+func readsBytesOnly(v ssa.Value, depth int) bool {
+	if depth > 4 || v.Referrers() == nil {
+		return depth <= 4
+	}
+	for _, r := range *v.Referrers() {
+		switch x := r.(type) {
+		case *ssa.DebugRef:
+		case *ssa.Store:
+			if x.Addr == v {
+				return false
+			}
+		case *ssa.Slice:
+			if !readsBytesOnly(x, depth+1) {
+				return false
+			}
+		case *ssa.Phi:
+			if !readsBytesOnly(x, depth+1) {
+				return false
+			}
+		case *ssa.IndexAddr:
+			for _, rr := range *x.Referrers() {
+				if st, ok := rr.(*ssa.Store); ok && st.Addr == ssa.Value(x) {
+					return false
+				}
+			}
+		case *ssa.Call:
+			name := prov.CalleeName(&x.Call)
+			switch {
+			case name == "mice.validateRecord", name == "builtin:len", name == "bytes.Equal":
+			case name == "builtin:copy" && len(x.Call.Args) == 2 && x.Call.Args[1] == v && x.Call.Args[0] != v:
+			default:
+				return false
+			}
+		case *ssa.BinOp, *ssa.If:
+		default:
+			return false
+		}
+	}
+	return true
+}
+
 // whoWritesDecoder: only NewDecoder, Read and readNextRecord store to the
 // decoder's fields; the record buffer is written only by io.ReadFull in
 // readNextRecord and the proof bytes only by the copy there.
@@ -277,7 +331,13 @@ func whoWritesDecoder(e *Env) {
 				case *ssa.Store:
 					if fa, ok := x.Addr.(*ssa.FieldAddr); ok && strings.Contains(fa.X.Type().String(), "mice.decoder") {
 						n++
-						if !allowed[load.FuncName(fn)] {
+						okOwner := true
+						for _, owner := range knownCallers(e, fn, 0) {
+							if !allowed[owner] {
+								okOwner = false
+							}
+						}
+						if !okOwner {
 							bad = append(bad, load.FuncName(fn)+" stores to "+prov.Of(x.Addr))
 						}
 					}
@@ -300,6 +360,11 @@ func whoWritesDecoder(e *Env) {
 						case name == "mice.validateRecord": // read-only: hashes record and compares proof
 						case name == "builtin:len":
 						default:
+							// a helper the rule tables do not know, called from the state
+							// machine, that only reads the bytes it is given
+							if h := x.Call.StaticCallee(); h != nil && h.Blocks != nil && !prov.KnownFunction(h) && e.P.InModule(h) && len(x.Call.Args) == len(h.Params) && allowed[load.FuncName(fn)] && readsBytesOnly(h.Params[i], 0) {
+								break
+							}
 							bad = append(bad, load.FuncName(fn)+" passes "+t+" to "+name)
 						}
 					}
@@ -344,7 +409,9 @@ func flagBytes(e *Env, vr *ssa.Function) {
 		return
 	}
 	// the two hashing arms of the proof loop, identified by their shape
-	lw, mw := encodeArms(enc)
+	host, done := proofHost(e, enc)
+	defer done()
+	lw, mw := encodeArms(host)
 	for _, v := range []struct {
 		ws   []*ssa.Call
 		want string
